@@ -161,7 +161,6 @@ def build(ck):
         if var is None:
             return
         which = S.choose(2)
-        S.inputs['state_set'] = which
         st = start_state(S, var, which)
         named = subsets(FN)[S.choose(2 ** len(FN))]
         S.inputs['named'] = list(named)
@@ -219,7 +218,6 @@ def build(ck):
         if var is None:
             return
         which = S.choose(2)
-        S.inputs['state_set'] = which
         st = start_state(S, var, which)
         before = st['cur']
         named = tuple(FN[:1 + S.choose(len(FN))])
@@ -242,7 +240,6 @@ def build(ck):
                  len(st['writes']) == 1 and st['writes'][0][0] == 'set' and st['writes'][0][2] is tok,
                  tag='enter-sets-once-and-keeps-the-token-of-this-set-on-self')
         exc = S.choose(2)
-        S.inputs['exit_by_exception'] = exc
         args = [None, None, None] if exc == 0 else [ExcVal('ValueError'), ExcVal('ValueError'), z3.Const('tb', CX.AnyS)]
         ex = S.call(S.I.getattr(cfg, '__exit__'), args)
         how = 'normal-exit' if exc == 0 else 'exit-by-exception'
@@ -262,7 +259,6 @@ def build(ck):
         if var is None:
             return
         which = S.choose(2)
-        S.inputs['state_set'] = which
         st = start_state(S, var, which)
         before = st['cur']
         base = effective(var, before)
@@ -301,7 +297,6 @@ def build(ck):
         if var is None:
             return
         which = S.choose(2)
-        S.inputs['state_set'] = which
         st = start_state(S, var, which)
         before = st['cur']
         base = effective(var, before)
@@ -372,7 +367,6 @@ def build_inverse(ck, T):
         if var is None:
             return
         which = S.choose(2)
-        S.inputs['state_set'] = which
         st = start_state(S, var, which)
         before = st['cur']
         pre_case = S.choose(3)
